@@ -127,7 +127,7 @@ Definition blocked (rs : list rres) : bool :=
   existsb (fun r => match r with RBlock => true | _ => false end) rs.
 
 (* ---------- runner hook ----------
-   c16 <kind> <initial hex> <deliveries> <sizes>  ->  <results> <remaining hex>
+   c16 <kind> <initial hex | -> <deliveries> <sizes>  ->  <results> R<remaining hex>
    deliveries: L:hex:hex..., an item "." is an EOF delivery, "!" any other error;
    sizes: decimal read sizes separated by commas ("-" = none);
    results: L:<hex> per successful read, ":." / ":!" for a read that returned the error (followed by
@@ -171,6 +171,7 @@ Definition emit_res (r : rres) : bytes :=
 
 Definition run_c16 (fs : list bytes) : list bytes :=
   let k := parse_kind (nth 1 fs []) in
-  let s := mkPipe (of_hex (nth 2 fs [])) (parse_deliveries (nth 3 fs [])) [] in
+  let ini := nth 2 fs [] in
+  let s := mkPipe (if beqb ini [45%N] then [] else of_hex ini) (parse_deliveries (nth 3 fs [])) [] in
   let '(rs, s') := run_ops k (map ORead (parse_sizes (nth 4 fs []))) s in
-  [CH_L :: concat (map emit_res rs); to_hex (pending k s')].
+  [CH_L :: concat (map emit_res rs); 82%N :: to_hex (pending k s')].
